@@ -22,6 +22,10 @@ M = [
  ("c04_progname_copy_short", "src/library/prog_args/handler.cpp",
   "copy( new char[ ::strlen( arg0) + 1]);\n\n   ::strcpy( copy.get(), arg0);\n\n   const char*  progNameOnly",
   "copy( new char[ ::strlen( arg0)]);\n\n   ::strcpy( copy.get(), arg0);\n\n   const char*  progNameOnly"),
+ ("c04_vecbool_unchecked_write", "src/celma/prog_args/detail/typed_arg.hpp",
+  "            auto const  pos = boost::lexical_cast< size_t>( listVal);\n            if (pos >= mDestVar.size())\n               mDestVar.resize( pos + pos / 2 + 1);\n            mDestVar.at( pos) = !mResetFlags;",
+  "            auto const  pos = boost::lexical_cast< size_t>( listVal);\n            if (pos >= mDestVar.size())\n               mDestVar.resize( pos + pos / 2 + 1);\n            mDestVar[ pos] = !mResetFlags;"),
+ ("c04_dynbits_set_unchecked", "src/library/container/dynamic_bitset.cpp", "   mData.at( pos) = value;", "   mData[ pos] = value;"),
  ("c05_no_mismatch_check", "src/celma/prog_args/detail/storage.hpp", "if (entry.mismatch( key))", "if (false && entry.mismatch( key))"),
  ("c05_subgroup_keys_no_abbrev", "src/library/prog_args/handler.cpp", "   mSubGroupArgs( (flag_set & hfNoAbbr) == 0, true),", "   mSubGroupArgs( false, true),"),
  ("c05_abbr_first_match_wins", "src/library/prog_args/detail/argument_container.cpp", "   if (ambiguous)\n      throw", "   if (false && ambiguous)\n      throw"),
@@ -42,8 +46,8 @@ M = [
   "            auto const  pos = boost::lexical_cast< size_t>( listVal);\n            if (pos >= mDestVar.size())\n               mDestVar.resize( pos + pos / 2 + 1);",
   "            auto const  pos = boost::lexical_cast< size_t>( listVal);\n            if (pos >= mDestVar.size())\n               mDestVar.resize( pos * 1.5);"),
  ("c06_vecbool_unset_sets", "src/celma/prog_args/detail/typed_arg.hpp",
-  "               mDestVar.resize( pos + pos / 2 + 1);\n            mDestVar[ pos] = !mResetFlags;\n         } // end if",
-  "               mDestVar.resize( pos + pos / 2 + 1);\n            mDestVar[ pos] = true;\n         } // end if"),
+  "               mDestVar.resize( pos + pos / 2 + 1);\n            mDestVar.at( pos) = !mResetFlags;\n         } // end if",
+  "               mDestVar.resize( pos + pos / 2 + 1);\n            mDestVar.at( pos) = true;\n         } // end if"),
  ("c06_dynbits_clear_every_use", "src/celma/prog_args/detail/typed_arg.hpp",
   "         mDestVar.reset();\n         // clear only once\n         mClearB4Assign = false;", "         mDestVar.reset();"),
  ("c06_map_duplicate_key_overwrites", "src/celma/prog_args/detail/key_value_container_adapter.hpp",
